@@ -1,7 +1,7 @@
 (* C12 — Globs apply to exactly the matching objects and connections.  Statements only. *)
 From Coq Require Import List NArith Bool.
 Import ListNotations.
-Require Import V.C12.Model V.C12.Proofs V.C12.GlobModel V.C12.GlobProofs.
+Require Import V.C12.Model V.C12.Proofs V.C12.GlobModel V.C12.GlobProofs V.C12.GlobOrder.
 Open Scope N_scope.
 
 (* ---- the specification is the standard wildcard semantics ---- *)
@@ -114,6 +114,24 @@ Theorem C12_glob_equiv_expansion_d2ir :
   forall p, wf_progb p = true -> run keq_go mt_go p = Some (run_plain keq_go (expand keq_go mt_go p)).
 Proof. exact glob_equiv_expansion_go. Qed.
 
+(* explicit_after_glob_wins: whatever globs the program declared, after a final explicit key `q: v` the field q
+   holds v *)
+Theorem C12_explicit_after_glob_wins :
+  forall (keq : str -> str -> bool) (mt : str -> list str -> bool), (forall a, keq a a = true) ->
+  forall p q v, wf_from mt [] (p ++ [SKey q (Some v)]) ->
+  exists st term, run keq mt (p ++ [SKey q (Some v)]) = Some st /\ resolves keq st [] q term /\ prim_at st term = Some v.
+Proof. exact explicit_after_glob_wins. Qed.
+
+(* glob_after_explicit_wins: whatever the program set before, after a final glob every target of the glob (every
+   matching field that exists at that point) holds the glob's value at the glob's suffix *)
+Theorem C12_glob_after_explicit_wins :
+  forall (keq : str -> str -> bool) (mt : str -> list str -> bool), (forall a, keq a a = true) ->
+  forall p g, wf_from mt [] (p ++ [SGlob g]) ->
+  exists st0 st, run keq mt p = Some st0 /\ run keq mt (p ++ [SGlob g]) = Some st /\
+    forall t, In t (targets keq mt g st0) ->
+      exists term, resolves keq st t (g_suf g) term /\ prim_at st term = Some (g_val g).
+Proof. exact glob_after_explicit_wins. Qed.
+
 (* "exactly the matching objects": the targets of a glob are exactly the existing fields at the depth of its
    pattern part whose names the patterns match, level by level *)
 Theorem C12_glob_targets_exactly_the_matching_fields :
@@ -139,6 +157,12 @@ Example C12_glob_equiv_expansion_satisfiable :
             SKey [[97];[115;116;121;108;101];[102;105;108;108]] (Some [98]); SKey [[98];[99]] None;
             SGlob (G [] [[[97];[42]];[[42]]] [[108;97;98;101;108]] [120])] = true.
 Proof. vm_compute. reflexivity. Qed.
+Example C12_explicit_after_glob_wins_satisfiable :
+  wf_from mt_go [] ([SGlob (G [] [[[42]]] [[108;97;98;101;108]] [120])] ++ [SKey [[97];[108;97;98;101;108]] (Some [121])]).
+Proof. apply wf_fromb_sound. vm_compute. reflexivity. Qed.
+Example C12_glob_after_explicit_wins_satisfiable :
+  wf_from mt_go [] ([SKey [[97];[108;97;98;101;108]] (Some [121])] ++ [SGlob (G [] [[[42]]] [[108;97;98;101;108]] [120])]).
+Proof. apply wf_fromb_sound. vm_compute. reflexivity. Qed.
 Example C12_match_pattern_fixed_total_prefix_match_satisfiable :
   [[42];[98]] <> [] /\ alternating [[42];[98]] = true.
 Proof. split; [discriminate | reflexivity]. Qed.
@@ -168,6 +192,8 @@ Print Assumptions C12_match_pattern_pinned_trailing_star.
 Print Assumptions C12_match_never_reserved.
 Print Assumptions C12_glob_equiv_expansion.
 Print Assumptions C12_glob_equiv_expansion_d2ir.
+Print Assumptions C12_explicit_after_glob_wins.
+Print Assumptions C12_glob_after_explicit_wins.
 Print Assumptions C12_glob_targets_exactly_the_matching_fields.
 Print Assumptions C12_glob_targets_never_reserved.
 Print Assumptions C12_glob_duplicate_refuted.
